@@ -154,7 +154,7 @@ Proof. intros V L E Lx Hin. pose proof (proj_length rt c n w r V L E) as Lr.
     pose proof (qmul_nonneg (- nth dom r 0) (hd - ld) ltac:(lra) ltac:(lra)).
     pose proof (qmul_nonneg (- nth weak r 0) (hw - lw) ltac:(lra) ltac:(lra)).
     repeat split; lra. }
-  split; [intros Hm; destruct (I Hm); lra|]. split; [intros Hm; destruct (D Hm); lra|].
+  split; [intros Hm; destruct (I Hm); lra|]. split; [intros Hm; destruct (D Hm) as [? _]; unfold fw, fd in *; lra|].
   destruct (lv_monos_val c n V dom) as [M|[M|M]]; unfold mono in M.
   - exfalso. apply Mnz. exact M.
   - destruct (I M) as [? [? ?]]. qcases; lra.
@@ -208,12 +208,8 @@ Proof. intros V L N A E E3 G Lx Hc. pose proof (proj_length rt c n w r V L E) as
   pose proof (all_increasing_nonneg rt c n w r V L E A) as Hnn.
   destruct (lin_norm1 rt c n w r V L N E) as [w3' [E3' Hor]]. rewrite E3 in E3'. inversion E3'; subst w3'.
   assert (P : peq r w3).
-  { destruct Hor as [H|[_ H]]; [|exact H]. rewrite N in E. rewrite lin_project_col_pre in E, E3.
-    cbn [with_norm lc_norm normalize] in E3. unfold lin_pre, with_norm in E3; cbn [lc_monos lc_mdom lc_rdom lc_min lc_max] in E3.
-    fold (lin_pre c w) in E3. unfold stage_range in E3. cbn [lc_monos lc_mdom lc_rdom lc_min lc_max] in E3.
-    fold (stage_range c) in E3. fold (lin_pre c w) in E3.
-    destruct (lin_pre c w) as [p|]; [|discriminate]. cbn [option_map] in E, E3. inversion E3; subst p. inversion E; subst r.
-    apply normalize_small. exact G. }
+  { destruct (lin_spec rt c n w r V L E) as [p [e [Ep [Er _]]]]. rewrite lin_pre_norm0 in E3.
+    rewrite E3 in Ep. inversion Ep; subst p. rewrite N in Er. subst r. apply normalize_small. exact G. }
   split; [exact P|].
   assert (Sabs : qsum (map qabs r) == qsum (map qabs w3)).
   { apply qsum_map_peq; [|exact P]. intros a a' Ha. rewrite Ha. reflexivity. }
